@@ -41,7 +41,7 @@ func VerifRun_C04d() {
 			vs := GetVarStruct(src, vpLineStarts(src)[line-1]+col, uint32(line-1), uint32(col))
 			if vs.ValidFlag && len(vs.StrVec) > 0 {
 				verifReach("member")
-				vs2 := vs
+				vs2 := vpCopyVS(vs)
 				for _, d := range p.FindVarDefineInfo(file, &vs) {
 					if d.StrFile != file {
 						continue
